@@ -57,7 +57,7 @@ STUBBED = ["socket (scripted outcomes), select, pinger, time, threading "
 EXPECT_PROBES = ["side_ctl", "side_sw", "tx_script_part", "tx_script_eagain",
                  "tx_script_fatal", "deferred_used", "send_fast_used",
                  "side_swt", "send_while_flushing",
-                 "exceptional_with_backlog",
+                 "exceptional_with_backlog", "ctl_overlapping_backlogs",
                  "send_from_connection_down_handler"]
 
 
@@ -117,6 +117,30 @@ def gen_plan(seed, tier):
                     "n": r.pick([8, 9, 40, 200, 1500, 4095, 4096, 4097, 6000,
                                  8191, 8192, 8193, 12288, 16384]),
                     "gap": r.pick([0, 0, 0, 1])})
+    ro = Rng(mix(seed, "overlap"))
+    if ro.chance(0.12):
+      # two connections with a backlog in the deferred sender at the same
+      # time, one of which drains while the other's socket keeps refusing:
+      # the one flag that sends every write through the sender belongs to
+      # both of them
+      cfg["ncon"] = 2
+      cfg["down_handler_sends"] = False
+      cfg["exc_at"] = None
+      cfg["overlap"] = True
+      a = ro.randrange(2)
+      sa = [["part", ro.randint(1, 7)]] + [["ok"]] * ro.randint(0, 2)
+      # (the other's first message is queued without a socket call, the flag
+      # being up; its socket then refuses the sender thread's first attempt,
+      # or the first few)
+      sb = [["eagain"]] * ro.pick([1, 1, 1, 2, 3]) + \
+          [ro.pick([["ok"], ["part", 3]])] * ro.randint(0, 2)
+      cfg["scripts"] = [sa, sb] if a == 0 else [sb, sa]
+      del steps[:]
+      order = [a, 1 - a, 1 - a] + [ro.pick([a, 1 - a, 1 - a])
+                                   for _ in range(ro.randint(1, 5))]
+      for ci in order:
+        steps.append({"con": ci, "n": ro.pick([8, 9, 24, 40, 200]),
+                      "gap": ro.pick([0, 0, 1])})
   else:
     cfg["script"] = _script(r, r.randint(0, 10), fatal_ok=r.chance(0.3))
     cfg["recv_mode"] = "all"
@@ -449,6 +473,8 @@ def _drive_ctl(sim, plan, known, hit):
   R = tw.R
   tw.start_scheduler()
   ncon = cfg["ncon"]
+  if cfg.get("overlap"):
+    sim.probes["ctl_overlapping_backlogs"] += 1
   peers = []
   queued = [b""] * ncon
   base = [0] * ncon
@@ -528,6 +554,18 @@ def _drive_ctl(sim, plan, known, hit):
                 eng.preempt()
               sim.probes["ctl_exceptional_then_send_in_same_slice"] += 1
               continue
+        if cfg.get("overlap") and i == 1 and eng.me() is not None \
+            and st.get("n", 0) != 9:
+          # the handler that sends these is not done: its next message (to
+          # the same switch) follows in this slice, while the sender thread
+          # gets on with the other connection's backlog
+          other = peers[plan["steps"][0]["con"] % ncon].con
+          for _ in range(300):
+            if other not in ds._dataForConnection:
+              break
+            eng.preempt()
+          sim.probes["ctl_overlap_send_in_same_slice"] += 1
+          continue
         if st.get("gap"):
           yield 0.05
         else:
